@@ -17,6 +17,8 @@ pub(crate) mod prover;
 pub(crate) mod prng;
 
 mod c01;
+mod c05;
+mod c10;
 mod c14;
 mod c15;
 mod sysop;
@@ -44,6 +46,8 @@ fn verif_entry() {
     std::panic::set_hook(Box::new(|_| {}));
     match op.as_str() {
         "c01" => c01::run(seed, n, &mut out),
+        "c05" => c05::run(seed, n, &mut out),
+        "c10" => c10::run(seed, n, &mut out),
         "c14" => c14::run(seed, n, &mut out),
         "c15" => c15::run(seed, n, &mut out),
         "sys" => sysop::run(seed, n, &mut out),
